@@ -33,6 +33,10 @@ pub struct AlphaCfg {
     pub jump_to: Option<u64>,
     /// emit every withdrawal request twice (different additional data, hence different transaction hashes and settlement orders)
     pub request_variants: bool,
+    /// also emit every request with its request output addressed to the destruction address (it never becomes a coin)
+    pub burnt_requests: bool,
+    /// swap templates per pool side (coins of that denomination used)
+    pub swaps_per_side: usize,
 }
 
 impl AlphaCfg {
@@ -59,6 +63,8 @@ impl AlphaCfg {
             only_pools: None,
             jump_to: None,
             request_variants: false,
+            burnt_requests: false,
+            swaps_per_side: 1,
         }
     }
 }
@@ -281,7 +287,7 @@ fn pool_alphabet(n: &Node, cfg: &AlphaCfg) -> Vec<(String, Transaction, bool)> {
         let pname = format!("{}/{}", dn(k.left()), dn(k.right()));
         let spellings: Vec<(&'static str, Vec<u8>)> = if cfg.pool_spellings { pool_spellings(*k) } else { vec![("canonical", k.to_bytes().to_vec())] };
         for side in [k.left(), k.right()] {
-            for c in coins_of(m, side, 1) {
+            for c in coins_of(m, side, cfg.swaps_per_side.max(1)) {
                 let v = c.1.coin_data.value.0;
                 let (ins, carrier_out) = match spend_base(m, &c) {
                     Some(x) => x,
@@ -294,7 +300,12 @@ fn pool_alphabet(n: &Node, cfg: &AlphaCfg) -> Vec<(String, Transaction, bool)> {
                     if cfg.swaps {
                         let mut o = vec![out_t(v, side)];
                         o.extend(carrier_out.clone());
-                        out.push((format!("swap[{}:{}]({} {})", pname, sname, dn(side), short(&c.0)), tx_t(TxKind::Swap, ins.clone(), o, 0, data.clone()), true));
+                        out.push((format!("swap[{}:{}]({} {})", pname, sname, dn(side), short(&c.0)), tx_t(TxKind::Swap, ins.clone(), o.clone(), 0, data.clone()), true));
+                        if cfg.burnt_requests && *sname == "canonical" {
+                            let mut ob = o.clone();
+                            ob[0].covhash = Address::coin_destroy();
+                            out.push((format!("swap-burnt-output[{}]({} {})", pname, dn(side), short(&c.0)), tx_t(TxKind::Swap, ins.clone(), ob, 0, data.clone()), true));
+                        }
                     }
                     if cfg.other_kinds_with_pool_data {
                         for kind in [TxKind::Normal, TxKind::Faucet] {
@@ -321,6 +332,13 @@ fn pool_alphabet(n: &Node, cfg: &AlphaCfg) -> Vec<(String, Transaction, bool)> {
                 }
                 for (sname, data) in &spellings {
                     out.push((format!("deposit[{}:{}]", pname, sname), tx_t(TxKind::LiqDeposit, ins.clone(), outs.clone(), 0, data.clone()), true));
+                }
+                if cfg.burnt_requests {
+                    for which in [0usize, 1] {
+                        let mut ob = outs.clone();
+                        ob[which].covhash = Address::coin_destroy();
+                        out.push((format!("deposit-burnt-output{}[{}]", which, pname), tx_t(TxKind::LiqDeposit, ins.clone(), ob, 0, k.to_bytes().to_vec()), true));
+                    }
                 }
             }
             // a second, small deposit from *other* coins, so that several deposits can share a block
@@ -358,6 +376,11 @@ fn pool_alphabet(n: &Node, cfg: &AlphaCfg) -> Vec<(String, Transaction, bool)> {
                 // the only valid shape: inputs [liq coin, mel coin], outputs [liq value], fee = mel value
                 let fee = ins.get(1).and_then(|id| m.coins.get(id)).map(|c| c.coin_data.value.0).unwrap_or(0);
                 out.push((format!("withdraw[{}]({})", pname, short(&c.0)), tx_t(TxKind::LiqWithdraw, ins.clone(), vec![out_t(v, k.liq_token_denom())], fee, k.to_bytes().to_vec()), true));
+                if cfg.burnt_requests {
+                    let mut o = out_t(v, k.liq_token_denom());
+                    o.covhash = Address::coin_destroy();
+                    out.push((format!("withdraw-burnt-output[{}]({})", pname, short(&c.0)), tx_t(TxKind::LiqWithdraw, ins.clone(), vec![o], fee, k.to_bytes().to_vec()), true));
+                }
                 if cfg.request_variants {
                     let mut o = out_t(v, k.liq_token_denom());
                     o.additional_data = vec![1].into();
